@@ -22,7 +22,7 @@ def main():
     for mp in sorted(glob.glob(os.path.join(ROOT, "seeded", "agent-*", "meta.json"))):
         m = json.load(open(mp))
         name = m["name"]
-        rnd = {"a": 1, "b": 2, "c": 3, "d": 4, "e": 5, "f": 6, "g": 7, "h": 8, "i": 9, "j": 10, "k": 11}.get(name[-1], 0)
+        rnd = {"a": 1, "b": 2, "c": 3, "d": 4, "e": 5, "f": 6, "g": 7, "h": 8, "i": 9, "j": 10, "k": 11, "l": 12}.get(name[-1], 0)
         checks = m.get("checks", {})
         caught = [p for p, r in checks.items() if r.get("exit") == 1]
         caught += ["%s (thorough tier only)" % p for p in m.get("thorough_only", {})]
@@ -52,7 +52,7 @@ def main():
                "patch applied (`VERIF_REPO=<worktree> VERIF_NO_REPLAY=1 python3 run.py <ID> quick`), i.e. by generated search only: the "
                "replay files of earlier findings were not consulted. \"first run\" in the history column means the state of the machinery "
                "before it had seen the change. The column of ALL alarming quick checks comes from tools/crossmut.py (every quick check against every change; rounds 1-4 "
-               "with the checks as they stood before round 5, rounds 5-8 with the checks as they stood after round 8, round 9 with the checks as they stood after round 9; not computed for rounds 10 and 11, whose neighbours were tried by hand - fourth column); n/a marks those and the two changes that no "
+               "with the checks as they stood before round 5, rounds 5-8 with the checks as they stood after round 8, round 9 with the checks as they stood after round 9; not computed for rounds 10 to 12, whose neighbours were tried by hand - fourth column); n/a marks those and the two changes that no "
                "longer apply.\n")
     out.append("Changes written by fresh sub-agents that were given only the property text and a scratch worktree (rounds 1-%d):\n" % max(per_round or {0: 0}))
     for rnd in sorted(per_round):
